@@ -49,8 +49,8 @@ func init() {
 		NonTrivial: func(o *Outcome) bool {
 			return o.Hist.FaultFired["store:cut-effective"]+o.Hist.FaultFired["store:flip"]+o.Hist.FaultFired["store:garbage"] > 0
 		},
-		Rule:         "records captured from the run itself (hit records with identity / gzip+br variants, multi-valued and non-ASCII headers, empty and large bodies; hit-for-pass records) are fed back through the real lookup path after the entry was evicted: mode cut = the store returns the record cut at offset k for every k of a contiguous window (thorough tier: every offset 0..len-1 of the record, i.e. exhaustive per record), mode flip = seeded single bit flips, mode garbage = random bytes of the record's length, mode zerotail = the last 1..64 bytes read back as zeros (the other shape of a torn write). Oracle: no panic, no stuck request, bytes allocated during the request <= 64 x record length + 32 MiB (the allowance covers the fetch after the miss refilling the pooled gzip / brotli writers); every truncated record is a miss (the request reaches the origin and is answered correctly) and the key neither becomes a permanent error nor an immortal entry (final probe after the lifetime reaches the origin). The algebraic Bytes/FromBytes round trip over arbitrary structures is input testing and not claimed. non-trivial = at least one effective corruption was delivered; distinct = distinct history hash",
-		ExpectProbes: []string{"cut-record-checked", "flip-record-checked", "garbage-record-checked", "zerotail-record-checked", "final-probe-ok", "record-with-compressed-variants", "hit-for-pass-record"},
+		Rule:         "records captured from the run itself (hit records with identity / gzip+br variants, multi-valued and non-ASCII headers, empty and large bodies; hit-for-pass records; one record in eight carries a header value of 70-110 KB) are first read back undamaged after an eviction (they must come back as the stored response) and then fed back through the real lookup path after the entry was evicted: mode cut = the store returns the record cut at offset k for every k of a contiguous window (thorough tier: every offset 0..len-1 of the record, i.e. exhaustive per record), mode flip = seeded single bit flips, mode garbage = random bytes of the record's length, mode zerotail = the last 1..64 bytes read back as zeros (the other shape of a torn write). Oracle: no panic, no stuck request, bytes allocated during the request <= 64 x record length + 32 MiB (the allowance covers the fetch after the miss refilling the pooled gzip / brotli writers); every truncated record is a miss (the request reaches the origin and is answered correctly) and the key neither becomes a permanent error nor an immortal entry (final probe after the lifetime reaches the origin). The algebraic Bytes/FromBytes round trip over arbitrary structures is input testing and not claimed. non-trivial = at least one effective corruption was delivered; distinct = distinct history hash",
+		ExpectProbes: []string{"cut-record-checked", "flip-record-checked", "garbage-record-checked", "zerotail-record-checked", "final-probe-ok", "record-with-compressed-variants", "hit-for-pass-record", "clean-reload-checked", "clean-reload-of-header-block>64KiB"},
 	})
 	register(&Profile{
 		Name:     "C08",
@@ -239,6 +239,11 @@ func genC09(g *Gen) *Plan {
 		if g.p(0.3) {
 			rec.ETag = `"abc"`
 		}
+		if g.p(0.12) {
+			// a very long header value (a Link list, a policy): the header block of the record
+			// is far beyond 64 KiB
+			rec.Header = append(rec.Header, [2]string{"Link", strings.Repeat("<https://a.test/some/long/path/of/a/linked/resource?with=query>; rel=preload, ", g.n(900, 1400))})
+		}
 	}
 	p.Scripts = map[string][]Reply{key: {rec}} // the last entry of a script repeats
 	p.Default = cacheable(3000, 30)
@@ -258,6 +263,7 @@ func genC09(g *Gen) *Plan {
 	// headers, body for every Accept-Encoding, Age continuing from the original fetch
 	for i := 0; i < 3; i++ {
 		op := reqOp("GET", hostA, "/rec")
+		op.Tag = "clean-reload"
 		if ae := pick(g, "", "gzip", "br"); ae != "" {
 			op.Header = append(op.Header, [2]string{"Accept-Encoding", ae})
 		}
@@ -322,6 +328,25 @@ func oracleC09(o *Outcome) []Violation {
 		if u.Reply.Enc != "" || (u.Shareable && len(u.BodyRaw) > 100) {
 			o.Hist.Probes["record-with-compressed-variants"]++
 			break
+		}
+	}
+	// round trip through the store: an undamaged, unexpired record of a stored response comes
+	// back as that response (status / headers / body are the response oracle's business)
+	for _, v := range views {
+		if v.R.Tag != "clean-reload" || v.R.ReturnSeq < 0 {
+			continue
+		}
+		first := o.Hist.Ups[0]
+		if !first.Shareable || first.Verdict.Ambiguous || !first.Answered || first.Key != v.R.Key {
+			continue
+		}
+		o.Hist.Probes["clean-reload-checked"]++
+		if len(first.Reply.Header) > 0 && len(first.Call.header.Get("Link")) > 65536 {
+			o.Hist.Probes["clean-reload-of-header-block>64KiB"]++
+		}
+		if len(v.OwnUps) > 0 || v.Kind != "origin" {
+			out = append(out, violation("C09", "undamaged-record-not-restored", "an undamaged, unexpired record did not come back as the stored response",
+				"client op %d %s: the entry was evicted and its record (written %d s earlier, lifetime %d s) read back intact, yet the request was not answered from it (kind %s, %d upstream contacts, label %q)", v.R.Op, v.R.Key, (v.R.InvokeT-first.ReplyT)/1000, first.Lifetime, v.Kind, len(v.OwnUps), v.XStatus))
 		}
 	}
 	for _, s := range o.Hist.Stores {
